@@ -17,8 +17,8 @@ from . import common as cm
 NAME = "covmodel"
 PROPERTY = "C14"
 TIERS = {"quick": (6000, 90.0), "thorough": (300000, 1800.0)}
-CHANGE_KINDS = {"set", "bounds", "boundary"}
-OBSERVE_KINDS = {"set", "bounds", "boundary"}
+CHANGE_KINDS = {"set", "bounds", "boundary", "alias_probe"}
+OBSERVE_KINDS = {"set", "bounds", "boundary", "alias_probe"}
 RULE = ("one run = seeded history (3-12 ops) of public mutations on one CovModel (17 classes x "
         "plain / temporal / lat-lon / lat-lon+temporal x dim 1-4): assignments of var, var_raw, "
         "len_scale (scalar / list), anis, angles, nugget, optional args, rescale, dim, "
@@ -192,7 +192,7 @@ def gen_config(rng):
         "rescale": rng.choice([None, None, None, 0.5, 2.0]),
         "geo_scale": rng.choice([1.0, 6371.0]) if latlon else 1.0,
     }
-    w = {"set": 10, "bounds": 2, "boundary": 2, "fault": 3}
+    w = {"set": 10, "bounds": 2, "boundary": 2, "fault": 3, "alias_probe": 1}
     faults = rng.random() >= 0.4
     if not faults:
         w["fault"] = 0
@@ -340,12 +340,21 @@ class Machine:
                 typ = "".join(t)
             b = [float(lo), float(hi)] + ([typ] if typ else [])
             return {"op": "bounds", "check": check, "param": p, "bounds": b}
+        if kind == "alias_probe":
+            return {"op": "alias_probe", "what": rng.choice(["anis", "angles", "len_scale"]),
+                    "how": rng.choice(["give_then_mutate", "take_then_build"]),
+                    "flavor": rng.choice(["temporal", "latlon_temporal", "plain"]),
+                    "values": [rng.choice(cm.ANIS_GRID) for _ in range(6)]}
         if kind == "boundary":
             cands = ["var", "len_scale", "nugget"] + sorted(r.opt)
             return {"op": "boundary", "param": rng.choice(cands),
                     "side": rng.choice(["lo", "hi"])}
         if rng.random() < 0.12:
             return {"fault": "errstate", "value": rng.choice(["warn", "ignore"])}
+        if rng.random() < 0.12 and not r.latlon:
+            lo = 2 if r.temporal else 1
+            return {"fault": "warnings_as_errors", "param": "dim",
+                    "value": rng.choice([d for d in range(lo, 5) if d != r.dim])}
         # rejected_set
         cands = ["var", "var_raw", "len_scale", "nugget", "len_scale_list", "integral_scale"]
         if r.dim > 1:
@@ -441,6 +450,9 @@ class Machine:
         if op.get("fault") == "errstate":
             np.seterr(all=op["value"])
             self.ctx.fired("errstate")
+        elif op.get("fault") == "warnings_as_errors":
+            self._warn_as_error(op)
+            return
         elif "fault" in op:
             self._rejected(op)
         elif op["op"] == "set":
@@ -449,9 +461,118 @@ class Machine:
             self._bounds(op)
         elif op["op"] == "boundary":
             self._boundary(op)
+        elif op["op"] == "alias_probe":
+            self._alias_probe(op)
         else:
             raise HarnessError(str(op))
         self.check_all(op.get("param", "?"))
+
+    def _warn_as_error(self, op):
+        """Ambient fault: the process runs with warnings turned into errors.  An assignment
+        that only *warns* (dimension not appropriate for the model) then fails; whatever state
+        the failed call leaves must be internally consistent (derived quantities), and after the
+        user re-assigns the old dimension the model equals the reference again."""
+        import warnings
+        r, m = self.ref, self.m
+        if self.poison or r.latlon:
+            raise Inapplicable("poisoned / latlon")
+        d = op["value"]
+        if not self._valid_for_ref("dim", d):
+            raise Inapplicable("dim")
+        for name, b in default_opt_bounds(r.cls, d).items():
+            if name not in r.user_bounds and not in_bounds(r.opt[name], b):
+                raise Inapplicable("opt arg illegal in that dimension")
+        if r.cls in DIMDEP and any(o in r.user_bounds for o in r.opt):
+            raise Inapplicable("user bounds on a dimension dependent argument")
+        if "anis" in r.user_bounds and d > r.dim and not in_bounds(1.0, r.user_bounds["anis"]):
+            raise Inapplicable("padding with 1 excluded")
+        raised = False
+        with warnings.catch_warnings():
+            warnings.simplefilter("error")
+            try:
+                m.dim = d
+            except Warning:
+                raised = True
+        self.ctx.fired("warnings_as_errors")
+        if raised:
+            self.ctx.probe("warning_raised_as_error")
+            # consistency of whatever is there now (no reference comparison: the call failed)
+            if len(m.anis) != m.dim - 1 or len(m.angles) != m.dim * (m.dim - 1) // 2 or \
+                    len(m.len_scale_vec) != m.dim:
+                raise Violation("C14.inconsistent_after_failed_assignment", dim=m.dim,
+                                n_anis=len(m.anis), n_angles=len(m.angles))
+            self._repair_dim()
+            self.check_all("warn_as_error.repaired")
+        else:
+            self._ref_dim(d)
+            self.check_all("dim")
+
+    def _alias_probe(self, op):
+        """The model must own its parameter state: arrays handed to it, or taken from it and
+        handed to another model, must not be shared."""
+        r, m = self.ref, self.m
+        if self.poison:
+            raise Inapplicable("poisoned")
+        what, how = op["what"], op["how"]
+        if what in ("anis", "angles") and r.dim == 1:
+            raise Inapplicable("1d")
+        if how == "give_then_mutate":
+            if what == "anis":
+                vals = [float(v) for v in op["values"][: r.dim - 1]]
+                if r.latlon:
+                    vals[:2] = [1.0, 1.0][: len(vals)]
+                if not in_bounds(vals, r.bounds("anis")):
+                    raise Inapplicable("bounds")
+                arr = np.array(vals, dtype=np.double)
+                m.anis = arr
+                r.set_anis(list(vals))
+            elif what == "angles":
+                vals = [float(v) for v in (op["values"] * 2)[: r.n_angles()]]
+                arr = np.array(vals, dtype=np.double)
+                m.angles = arr
+                r.set_angles(list(vals))
+            else:
+                if r.dim == 1:
+                    raise Inapplicable("1d")
+                vals = [float(v) * 2 for v in op["values"][: r.dim]]
+                trial = copy.deepcopy(r)
+                trial.set_len_scale(list(vals))
+                if not self._ref_in_bounds(trial):
+                    raise Inapplicable("bounds")
+                arr = np.array(vals, dtype=np.double)
+                m.len_scale = arr
+                self.ref = trial
+            self.check_all("alias_probe.assign")
+            arr *= 3.0          # the caller reuses its array
+            arr[...] = arr + 1.0
+            self.ctx.probe("alias.give_then_mutate")
+            return
+        # take_then_build: hand the model's own arrays to another model of another flavour
+        cls = type(m)
+        fl = op["flavor"]
+        kw = {"dim": m.dim}
+        if fl == "temporal":
+            kw["temporal"] = True
+        elif fl == "latlon_temporal":
+            if m.dim != 4:
+                raise Inapplicable("needs dim 4")
+            kw.update(latlon=True, temporal=True)
+        kw.update({o: getattr(m, o) for o in m.opt_arg})
+        if what == "anis":
+            kw["anis"] = m.anis
+        elif what == "angles":
+            kw["angles"] = m.angles
+        else:
+            kw["len_scale"] = m.len_scale_vec
+        try:
+            other = cls(**kw)
+            if what == "anis":
+                other.anis = m.anis
+            elif what == "angles":
+                other.angles = m.angles
+        except ValueError:
+            raise Inapplicable("helper model not constructible")
+        self.ctx.probe("alias.take_then_build")
 
     def _assign(self, p, v):
         m = self.m
